@@ -49,6 +49,9 @@ type Case struct {
 	// Nulls: every mounts / deviceNodes list starts and ends with a null entry (a Spec built in
 	// memory, or `- null` in a document): a null entry uses no feature and hides none behind it
 	Nulls bool `json:"null_entries_around_every_list,omitempty"`
+	// Bare: an edits block holds nothing but the features placed in it - no environment, no untyped
+	// mount, no host-path-less device node next to them (a typed mount in a device without device nodes ...)
+	Bare bool `json:"nothing_but_the_features_in_each_edits_block,omitempty"`
 }
 
 func editsWith(c Case, pos int) specs.ContainerEdits {
@@ -67,6 +70,15 @@ func editsWith(c Case, pos int) specs.ContainerEdits {
 		dn.HostPath = []string{"/dev/y", "/", "relative", "/dev/x"}[pos%4]
 	}
 	e.DeviceNodes = append(e.DeviceNodes, dn)
+	if c.Bare {
+		e.Env, e.Mounts, e.DeviceNodes = nil, nil, nil
+		if has("mountType") {
+			e.Mounts = []*specs.Mount{m}
+		}
+		if has("hostPath") {
+			e.DeviceNodes = []*specs.DeviceNode{dn}
+		}
+	}
 	if c.Nulls {
 		e.Mounts = append(append([]*specs.Mount{nil}, e.Mounts...), nil)
 		e.DeviceNodes = append(append([]*specs.DeviceNode{nil}, e.DeviceNodes...), nil)
@@ -210,6 +222,9 @@ func eval(c Case) hx.Result {
 		if c.Nulls {
 			pre += "null-list-entries:"
 		}
+		if c.Bare {
+			pre += "bare-edits-blocks:"
+		}
 		got, err := specs.MinimumRequiredVersion(s)
 		if err != nil || got != want {
 			return hx.Result{Outcome: "FAIL", Nontrivial: true, Fail: &hx.Failure{Rank: rank(c),
@@ -334,14 +349,14 @@ func main() {
 	r.Rule = "every assignment of the 8 version-gated features to position sets (spec level / device k of n, n<=3; each feature at " +
 		map[bool]string{true: "<=2 positions", false: "<=1 position (n=3) or <=2 (n<=2)"}[r.Thorough()] + ") x every device permutation x " +
 		fmt.Sprintf("%d declared version strings; each edits block also carries an untyped mount and a host-path-less device node as controls, and in half of the cases every annotations member that is not a placed feature is present but empty; ", len(declaredDomain)) +
-		"then histories of two contents held by ONE Spec object (asked, overwritten in place, asked again): all ordered pairs of the single-feature cases and every third case after its neighbour; every third case also with a null entry at the start and at the end of every mounts / deviceNodes list; " +
+		"then histories of two contents held by ONE Spec object (asked, overwritten in place, asked again): all ordered pairs of the single-feature cases and every third case after its neighbour; every third case also with a null entry at the start and at the end of every mounts / deviceNodes list, every third with edits blocks that hold nothing but the placed features; " +
 		"oracle = literal feature->version table, maximum by semver. Cases distinct by construction; non-trivial = at least one feature used"
 	r.Assumptions = []string{"v-prefixed declared versions are only checked for absence of panics (statement does not define them)", "more than 3 devices are not enumerated"}
 	record := func(l *hx.Local, c Case) {
 		res := eval(c)
 		l.Record(res, func() any { return map[string]any{"devices": c.N, "order": c.Perm, "features": describe(c), "result": res.Outcome} })
 	}
-	var nCases, nHist, nNull atomic.Int64
+	var nCases, nHist, nNull, nBare atomic.Int64
 	for _, sp := range []struct {
 		n    int
 		full bool
@@ -362,6 +377,11 @@ func main() {
 				record(l, c)
 				nNull.Add(1)
 			}
+			if i%3 == 0 {
+				c.Bare = true
+				record(l, c)
+				nBare.Add(1)
+			}
 		})
 	}
 	r.ParallelL(int64(len(small)*len(small)), func(k int64, l *hx.Local) {
@@ -372,7 +392,8 @@ func main() {
 	})
 	r.Extra["same_object_histories"] = nHist.Load()
 	r.Extra["cases_with_null_list_entries"] = nNull.Load()
+	r.Extra["cases_with_bare_edits_blocks"] = nBare.Load()
 	r.Extra["declared_versions_per_case"] = len(declaredDomain)
-	r.Extra["version_validations"] = (nCases.Load() + nHist.Load() + nNull.Load()) * int64(len(declaredDomain))
+	r.Extra["version_validations"] = (nCases.Load() + nHist.Load() + nNull.Load() + nBare.Load()) * int64(len(declaredDomain))
 	r.Finish()
 }
